@@ -420,6 +420,10 @@ func (s *RocksDBStore) Close() error {
 		s.db.Close()
 	}
 
+	if s.backupEngine != nil {
+		s.backupEngine.Close()
+	}
+
 	if s.backupOpts != nil {
 		s.backupOpts.Destroy()
 	}
